@@ -20,8 +20,8 @@ ASSUMPTIONS = ["order is certified on the executed problem classes (genericity o
                "class tableaus are float64: exactness threshold 1e-10 relative (RK14(12) published coefficients are ~3e-13 accurate)"]
 STEPS = [1.0, -0.75, 1.5]
 TAU = {"float64": 1e-10, "longdouble": 1e-10, "float32": 3e-4}
-FLOORS = {"quick": {"exact_probes_accepted": 150, "embedded_probes": 9, "richardson_probes_accepted": 12, "slope_probes": 20, "global_order_probes": 15},
-          "thorough": {"exact_probes_accepted": 900, "embedded_probes": 27, "richardson_probes_accepted": 200, "slope_probes": 60, "global_order_probes": 45}}
+FLOORS = {"quick": {"exact_probes_accepted": 150, "embedded_probes": 9, "richardson_probes_accepted": 12, "slope_probes": 20, "global_order_probes": 15, "global_order_runs_retuned": 15},
+          "thorough": {"exact_probes_accepted": 900, "embedded_probes": 27, "richardson_probes_accepted": 200, "slope_probes": 60, "global_order_probes": 45, "global_order_runs_retuned": 15}}
 CASE_TIMEOUT = 900
 HARMONIC_ONLY = ("ABAs5o6HSolver", "BABs9o7HSolver")
 
@@ -81,6 +81,10 @@ def gen_cases(tier, seed):
     for name in gnames:
         for sp in ([gspans[int(i)] for i in rng.choice(len(gspans), size=3, replace=False)] if tier == "quick" else gspans):
             cases.append(dict(kind="global", method=name, span=list(sp), pseed=1000 * seed + int(rng.integers(1000)), cost=4))
+        # the same, with the span covered by two calls and a parameter of the right-hand side changed in between (a time-rescaling, so the exact
+        # solution stays known): the order must survive the change of program
+        sp = gspans[int(rng.integers(len(gspans)))]
+        cases.append(dict(kind="global", method=name, span=list(sp), retune=1.7, pseed=1000 * seed + int(rng.integers(1000)), cost=5))
     return cases
 
 
@@ -412,13 +416,30 @@ def _run_global(spec):
     feats = {"method": spec["method"], "family": info["family"], "declared": p, "span_class": "%s%s%s" % ("-" if t0 < 0 else "+", "-" if tf < 0 else "+", "toward0" if abs(tf) < abs(t0) else "away")}
     n0 = {1: 64, 2: 24, 3: 16, 4: 10, 5: 8}.get(p, 8)
     errs, rows = [], []
+    g = spec.get("retune")
+    tc = t0 + 0.5 * (tf - t0)
+    if g:
+        feats["retuned_between_calls"] = True
+        rec.bump("global_order_runs_retuned", 3)
+
+    def rhs_g(t, y, gain=1.0, **kw):
+        # z(t) = y*(tc + gain (t - tc)) solves z' = gain f(tc + gain (t - tc), z)
+        return gain * prob.rhs(tc + gain * (t - tc), y)
     for n in (n0, 2 * n0, 4 * n0):
-        a = de.OdeSystem(prob.rhs, y0=prob.ystar(t0).astype(np.float64), dense_output=False, t=(t0, tf), dt=abs(tf - t0) / n)
-        a.method = info["cls"]
-        a.integrate()
+        if g:
+            a = de.OdeSystem(rhs_g, y0=prob.ystar(t0).astype(np.float64), dense_output=False, t=(t0, tf), dt=abs(tf - t0) / n, constants={"gain": 1.0})
+            a.method = info["cls"]
+            a.integrate(tc)
+            a.constants["gain"] = g
+            a.integrate()
+        else:
+            a = de.OdeSystem(prob.rhs, y0=prob.ystar(t0).astype(np.float64), dense_output=False, t=(t0, tf), dt=abs(tf - t0) / n)
+            a.method = info["cls"]
+            a.integrate()
         t = np.asarray(a.t)
         rows.append(len(t))
-        errs.append(float(np.max(np.abs(np.asarray(a.y[-1], dtype=np.longdouble) - prob.ystar(float(t[-1]))))) if abs(float(t[-1]) - tf) < 1e-9 else float("nan"))
+        t_exact = float(t[-1]) if not g else tc + g * (float(t[-1]) - tc)
+        errs.append(float(np.max(np.abs(np.asarray(a.y[-1], dtype=np.longdouble) - prob.ystar(t_exact)))) if abs(float(t[-1]) - tf) < 1e-9 else float("nan"))
     rec.bump("global_order_runs", 3)
     rec.nontrivial = True
     rec.sample = {"spec": spec, "errors": errs, "rows": rows}
